@@ -603,23 +603,40 @@ class World:
         else:
             self.emit('rinsert %d %s %d -' % (f, r.choice(['high', 'mid', 'low']), r.randint(-2, 4)))
 
-    def step(self, nsrc, weights=None):
+    PROFILES = {
+        'default': dict(place=22, remove=10, clear=2, state=12, charge=7, target=9, mode=6, level=4, fleet=6,
+                        solsys=4, source=4, read=10, bad=10),
+        'bad': dict(place=14, remove=8, clear=2, state=4, charge=6, target=3, mode=2, level=1, fleet=4,
+                    solsys=3, source=2, read=6, bad=45),
+        'containers': dict(place=34, remove=22, clear=5, state=2, charge=10, target=1, mode=1, level=0, fleet=1,
+                           solsys=2, source=1, read=3, bad=18),
+        'state': dict(place=12, remove=5, clear=1, state=30, charge=8, target=4, mode=25, level=2, fleet=1,
+                      solsys=3, source=3, read=4, bad=2),
+        'source': dict(place=14, remove=6, clear=1, state=8, charge=6, target=6, mode=5, level=3, fleet=3,
+                       solsys=10, source=22, read=12, bad=4),
+        'projection': dict(place=16, remove=10, clear=1, state=12, charge=2, target=22, mode=4, level=3, fleet=14,
+                           solsys=4, source=3, read=8, bad=1),
+    }
+
+    def step(self, nsrc, profile='default'):
         r = self.rng
-        table = [(self.op_place, 22), (self.op_remove, 10), (self.op_clear, 2), (self.op_state, 12),
-                 (self.op_charge, 7), (self.op_target, 9), (self.op_mode, 6), (self.op_level, 4),
-                 (self.op_fleet, 6), (self.op_solsys, 4), (lambda: self.op_source(nsrc), 4),
-                 (self.op_read, 10), (self.op_bad, 10)]
-        tot = sum(w for _, w in table)
+        w = self.PROFILES[profile]
+        table = [(self.op_place, w['place']), (self.op_remove, w['remove']), (self.op_clear, w['clear']),
+                 (self.op_state, w['state']), (self.op_charge, w['charge']), (self.op_target, w['target']),
+                 (self.op_mode, w['mode']), (self.op_level, w['level']), (self.op_fleet, w['fleet']),
+                 (self.op_solsys, w['solsys']), (lambda: self.op_source(nsrc), w['source']),
+                 (self.op_read, w['read']), (self.op_bad, w['bad'])]
+        tot = sum(x for _, x in table)
         x = r.uniform(0, tot)
-        for fn, w in table:
-            x -= w
+        for fn, wt in table:
+            x -= wt
             if x <= 0:
                 fn()
                 return
         table[0][0]()
 
 
-def gen_history(rng, nops=None, malformed=False, nfits=None, two_sources=True):
+def gen_history(rng, nops=None, malformed=False, nfits=None, two_sources=True, profile='default'):
     """returns (universe lines, list of op lines, meta)"""
     u1 = Universe(rng, malformed=malformed)
     ulines = u1.lines(1)
@@ -651,6 +668,6 @@ def gen_history(rng, nops=None, malformed=False, nfits=None, two_sources=True):
     setup_len = len(w.lines)
     nops = nops or rng.randint(10, 45)
     for _ in range(nops):
-        w.step(nsrc)
+        w.step(nsrc, profile)
     meta = dict(items=sorted(w.items), fits=w.fits, sss=w.sss, attrs=u1.all_attr_ids(), setup_len=setup_len)
     return ulines, w.lines, meta
